@@ -14,7 +14,7 @@ LEVEL = "model_checking"
 TECHNIQUE = "(a) breadth-first explicit-state search over constructor / encode / decode / discard histories over pairs and triples of command classes with a differential oracle (same operation alone); (b) preemption-bounded exhaustive enumeration of thread schedules at source-line granularity under a sys.settrace + semaphore-baton scheduler owning real threads"
 RULE = ("(a) pool of 10 classes chosen to collide (6/10/12/16-byte CDBs, inherited layout, constructors that raise after touching shared state, "
         "mutable arguments); operations new(X, 2 argument variants), new-invalid(X), X.unmarshall_cdb, X.marshall_cdb, repeat-marshal with the same "
-        "caller objects, deep copy of a live command (then modified), display helpers (print_cdb / print / repr) of a command, a caller-owned segment dictionary re-used after the caller changed its kind (also after a refused construction), first-use in 13 fresh processes (see C02), data-in buffers kept by the caller after their command was dropped and collected (6 classes x 6 classes x sizes 96 .. 1 MiB): never handed to a later command; same-thread re-entrancy: for every ordered pair of pool classes (and decoders) B runs to completion between two library lines of A, at every line of A in turn (signal handler / finalizer semantics), both observing what they observe alone; an opcode scan (a CDB marshalled for each of the 256 operation code values, 4 orders) with the pool classes observed before and after every 32 values; every pool class and decoder 300 (thorough 1100 / 66000) times in a row, each repetition observing what the first did; EXTENDED COPY segment kinds A, B, A in fresh processes (6 kinds x flag keys, both classes: bytes or refusal of A unchanged), the same battery of builds and decodes in 6 interpreters differing only in PYTHONHASHSEED, two commands over one caller-owned buffer with the first discarded and garbage-collected (WRITE, WRITE SAME, EXTENDED COPY inline data, ATA PASS-THROUGH 12/16 x all 256 ATA command codes x both directions), del; BFS with de-duplication on a digest of class-level state + live objects, all pairs to depth 4 (thorough 5) and all "
+        "caller objects, deep copy of a live command (then modified), display helpers (print_cdb / print / repr) of a command, a caller-owned segment dictionary re-used after the caller changed its kind (also after a refused construction), first-use in 13 fresh processes (see C02), decoded result dictionaries kept by the caller (8 methods x a shallow copy decoding another answer / the same command decoding again / a second command): unchanged; data-in buffers kept by the caller after their command was dropped and collected (6 classes x 6 classes x sizes 96 .. 1 MiB): never handed to a later command; same-thread re-entrancy: for every ordered pair of pool classes (and decoders) B runs to completion between two library lines of A, at every line of A in turn (signal handler / finalizer semantics), both observing what they observe alone; an opcode scan (a CDB marshalled for each of the 256 operation code values, 4 orders) with the pool classes observed before and after every 32 values; every pool class and decoder 300 (thorough 1100 / 66000) times in a row, each repetition observing what the first did; EXTENDED COPY segment kinds A, B, A in fresh processes (6 kinds x flag keys, both classes: bytes or refusal of A unchanged), the same battery of builds and decodes in 6 interpreters differing only in PYTHONHASHSEED, two commands over one caller-owned buffer with the first discarded and garbage-collected (WRITE, WRITE SAME, EXTENDED COPY inline data, ATA PASS-THROUGH 12/16 x all 256 ATA command codes x both directions), del; BFS with de-duplication on a digest of class-level state + live objects, all pairs to depth 4 (thorough 5) and all "
         "triples to depth 3 (thorough 4); in every state every live object and every class's codec is compared with what the same call yields "
         "alone; decode histories A,B,A over every ordered pair of 20 response kinds in a fresh process (result for A identical before and after B). (b) 2 threads (thorough: also 3), each 'c=X(..); bytes(c.cdb); X.unmarshall_cdb; X.marshall_cdb; len(c.datain)', every ordered "
         "pair of pool classes, plus decoder threads (standard INQUIRY, VPD 83h, MODE SENSE(10), REPORT LUNS, RTPG, READ FULL STATUS, READ ELEMENT STATUS, sense) in all ordered pairs, all schedules with at most 1 preemption at every traced source line of the library (thorough: also all schedules with at most 2 preemptions at function-entry granularity for the pairs over 5 classes of different CDB lengths, and 2 preemptions at "
@@ -88,6 +88,8 @@ def partitions(tier):
     for a in POOL:
         for b in POOL:
             parts.append(["sched", [a, b]])
+    for n in ("ExtendedCopy4", "ExtendedCopy5"):
+        parts.append(["sched", [n + "@shared", n + "@shared"]])
     parts += [["daba", n] for n in DECODER_CASES if DECODER_CASES[n] is not None]
     from vf.props import c02
     parts += [["first", i] for i in range(c02.N_FIRST)]
@@ -354,18 +356,25 @@ def ops_for(names):
 
 
 # ---------------------------------------------------------------------------------
-def thread_body(name, variant):
+def thread_body(name, variant, kw=None):
     if name.startswith("dec:"):
         return decoder_body(name)
+    name = name.split("@")[0]
     cls = CS.get_class(name)
     op = opcode_for(name)
-    kw = kwargs_for(name, thread_variant(name))
+    if kw is None:
+        kw = kwargs_for(name, thread_variant(name))
+
+    with_list = kw is not None and "given" in kw.get("_marker", "given") and name.startswith("ExtendedCopy") and kw.get("segment_descriptor_list") is not None
+    kw = {k: v for k, v in kw.items() if k != "_marker"}
 
     def body():
         c = cls(op, **kw)
         b = bytes(c.cdb)
         d = cls.unmarshall_cdb(c.cdb)
         m = bytes(cls.marshall_cdb(d))
+        if with_list:
+            return (b, tuple(sorted(d.items())), m, len(c.datain), bytes(c.dataout))
         return (b, tuple(sorted(d.items())), m, len(c.datain))
     return body
 
@@ -439,6 +448,7 @@ def thread_variant(name):
 
 
 def solo_thread(name, variant):
+    name = name.split("@")[0]
     if name.startswith("dec:"):
         if name not in _DSOLO:
             _DSOLO[name] = decoder_body(name)()
@@ -456,14 +466,34 @@ def calls_only(filename, lineno, event):
     return event == "call"
 
 
+def sched_bodies(names):
+    """thread bodies for one schedule.  "X@shared": the threads build their commands from ONE set of caller objects (the same
+    descriptor dictionaries and lists - a job template handed to two workers); everything else gets its own fresh arguments"""
+    shared = {}
+    bodies = []
+    for n in names:
+        if n.endswith("@shared"):
+            base = n.split("@")[0]
+            if base not in shared:
+                shared[base] = kwargs_for(base, 1)          # (the variant with descriptor lists; their parameter lists are observed)
+            bodies.append(thread_body(n, 0, shared[base]))
+        else:
+            bodies.append(thread_body(n, 0))
+    return bodies
+
+
+def sched_want(names):
+    return [solo_thread(n, 0) if not n.endswith("@shared") else thread_body(n, 0, kwargs_for(n.split("@")[0], 1))() for n in names]
+
+
 def run_schedules(names, bound, gran, acc, tag, max_schedules=None):
     repo = os.environ.get("VF_REPO", "/repo")
     pre = os.path.join(repo, "pyscsi") + "/"
-    want = [solo_thread(n, 0) for n in names]
+    want = sched_want(names)
     first = []
 
     def make():
-        return [thread_body(n, 0) for n in names]
+        return sched_bodies(names)
 
     def on_exec(x):
         case = ["sched", names, list(x.choices), tag]
@@ -702,6 +732,52 @@ def run_segstar(ver, kind, extra_key):
     return out
 
 
+RESULT_METHODS = ("inquiry", "readcapacity10", "readcapacity16", "reportluns", "modesense6", "modesense10", "getlbastatus", "readelementstatus")
+
+
+def run_results(method, how):
+    """the decoded result a caller holds is the caller's: a shallow copy of the command given another answer and decoded (how=copy),
+    the same command given another answer and decoded again (how=again), or a second command of the class decoding another answer
+    (how=other) never changes the dictionary obtained from the first decode"""
+    from vf import facade as F
+    from vf.props import c13
+    import pyscsi.pyscsi.scsi_enum_command as E
+    name, key, args = F.FACADE[method]
+    st = F.sets_offering(method)[0]
+    dev = c13.RecDev(getattr(E, st))
+    from pyscsi.pyscsi.scsi import SCSI
+    s = SCSI(dev, 512)
+    dev.opcodes = getattr(E, st)
+    x1, x2 = c13.response_for(method, dict(args), 0), c13.response_for(method, dict(args), 1)
+    if x1 is None or x1 == x2:
+        return []
+    dev.response = x1
+    a = F.call(s, method)
+    r1 = a.result
+    snap = freeze(copy.deepcopy(r1))
+    dk = c13.decoder_kwargs(method, dict(args))
+    where = "%s decoded, the result dictionary kept by the caller; then %s" % (method, {"copy": "copy.copy of the command given another answer and decoded",
+                                                                                   "again": "the same command given another answer and decoded again",
+                                                                                   "other": "a second command of the class decoding another answer"}[how])
+    try:
+        if how == "copy":
+            b = copy.copy(a)
+            b.datain = bytearray(x2.ljust(len(a.datain), b"\0")[:len(a.datain)])
+            b.unmarshall(**dk)
+        elif how == "again":
+            n = min(len(x2), len(a.datain))
+            a.datain[:n] = x2[:n]
+            a.unmarshall(**dk)
+        else:
+            dev.response = x2
+            F.call(s, method)
+    except Exception as e:   # noqa: BLE001
+        return [("results/raises/%s" % method, "%s: raised %s: %s" % (where, type(e).__name__, e))]
+    if freeze(r1) != snap:
+        return [("results/changed/%s" % how, "%s: the dictionary the caller holds changed" % where)]
+    return []
+
+
 KEEP_SIZES = (96, 512, 4096, 8192, 65536, 1 << 20)
 
 
@@ -803,6 +879,8 @@ def run_discard(case):
 
 
 def run_case(case):
+    if case[0] == "results":
+        return run_results(case[1], case[2])
     if case[0] == "keep_datain":
         return run_keep_datain(*case[1:])
     if case[0] == "reentrant":
@@ -830,14 +908,15 @@ def run_case(case):
     _, names, choices, tag = case
     repo = os.environ.get("VF_REPO", "/repo")
     pre = os.path.join(repo, "pyscsi") + "/"
-    x = sched.Execution([thread_body(n, 0) for n in names], choices, pre, {"coarse": coarse, "calls": calls_only}.get(tag)).run()
+    x = sched.Execution(sched_bodies(names), choices, pre, {"coarse": coarse, "calls": calls_only}.get(tag)).run()
+    want = sched_want(names)
     out = []
     for tid, n in enumerate(names):
         if x.errors[tid] is not None:
             out.append(("thread_raises/%s|%s" % (n, "+".join(names)), "thread %d raised %r" % (tid, x.errors[tid])))
-        elif x.results[tid] != solo_thread(n, 0):
+        elif x.results[tid] != want[tid]:
             out.append(("thread_interference/%s|%s" % (n, "+".join(names)), "thread %d (%s) observed %s, alone %s"
-                        % (tid, n, repr(x.results[tid])[:120], repr(solo_thread(n, 0))[:120])))
+                        % (tid, n, repr(x.results[tid])[:120], repr(want[tid])[:120])))
     return out
 
 
@@ -905,6 +984,19 @@ def run_partition(part, tier, seed):
         acc.outcome(("hashseed", tuple(k for k, _ in v)))
         return acc
     if part[0] == "discard":
+        for method in RESULT_METHODS:
+            for how in ("copy", "again", "other"):
+                case = ["results", method, how]
+                acc.case(case, nontrivial=True, key=repr(case))
+                acc.transitions += 2
+                try:
+                    v = run_results(method, how)
+                except Exception:
+                    import traceback
+                    v = [("harness_error", traceback.format_exc()[-500:])]
+                for k, w in v:
+                    acc.violation(k, w, case)
+                acc.outcome((repr(case), tuple(k for k, _ in v)))
         for first in keep_builders():
             for second in keep_builders():
                 for size in KEEP_SIZES:
